@@ -137,6 +137,26 @@ pub fn abs_parts(verts: &[(V, VType, Phase)], edges: &[(V, V, EType)], ins: &[V]
     json!({"v": v, "e": e, "ins": ins, "outs": outs, "sc": [1, 0, 0, 0, 0], "sca": false, "sf": []})
 }
 
+/// The abstract JSON diagram from a snapshot taken by hook H3 (same shape as `abs`).
+pub fn abs_snapshot(verts: &[(V, VData)], edges: &[(V, V, EType)], ins: &[V], outs: &[V], scalar: &Scalar4, sfs: &[(Expr, Scalar4)]) -> Value {
+    let mut vs: Vec<&(V, VData)> = verts.iter().collect();
+    vs.sort_by_key(|x| x.0);
+    let v: Vec<Value> = vs
+        .iter()
+        .map(|(x, d)| {
+            let (vars, vc) = parity_json(&d.vars);
+            json!({"id": x, "ty": ty_str(d.ty), "ph": phase_json(d.phase), "vars": vars, "vc": vc})
+        })
+        .collect();
+    let mut es: Vec<(V, V, EType)> = edges.iter().map(|&(a, b, t)| if a <= b { (a, b, t) } else { (b, a, t) }).collect();
+    es.sort();
+    let e: Vec<Value> = es.iter().map(|&(a, b, t)| json!({"u": a, "w": b, "t": et_str(t)})).collect();
+    let mut sf: Vec<(Value, Value)> = sfs.iter().map(|(e, s)| (expr_json(e), sc_json(s))).collect();
+    sf.sort_by_key(|(c, _)| c.to_string());
+    let sf: Vec<Value> = sf.into_iter().map(|(c, s)| json!({"cond": c, "sc": s})).collect();
+    json!({"v": v, "e": e, "ins": ins, "outs": outs, "sc": sc_json(scalar), "sca": sc_is_approx(scalar), "sf": sf})
+}
+
 /// Project a graph to the abstract JSON diagram.
 pub fn abs(g: &impl GraphLike) -> Value {
     let mut vs: Vec<V> = g.vertices().collect();
